@@ -77,7 +77,9 @@ func genScan(w *out.W, tier string) {
 			}
 		} else {
 			rn.run("e", byName["generic"], s)
-			rn.run("e", byName["mysql"], s)
+			if thorough {
+				rn.run("e", byName["mysql"], s)
+			}
 		}
 	})
 	w.Set("exhaustive_alphabet12_len", n12)
@@ -87,14 +89,20 @@ func genScan(w *out.W, tier string) {
 	if thorough {
 		nt = 5
 	}
-	gm := []optSet{byName["generic"], byName["mysql"]}
-	gp := []optSet{byName["generic"], byName["postgres"]}
+	gm := []optSet{byName["mysql"]}
+	gp := []optSet{byName["generic"]}
+	mp := []optSet{byName["mysql"], byName["postgres"]}
+	if thorough {
+		gm = []optSet{byName["generic"], byName["mysql"]}
+		gp = []optSet{byName["generic"], byName["postgres"]}
+		mp = drv
+	}
 	for _, fam := range []struct {
 		toks []string
 		n    int
 		sets []optSet
 	}{
-		{tokBegin, nt, drv}, {tokBegin, nt - 1, all}, {tokDelim, nt, gm}, {tokDelim, nt - 1, drv}, {tokHdr, nt, gp}, {tokHdr, nt - 1, drv},
+		{tokBegin, nt, mp}, {tokBegin, nt - 1, all}, {tokDelim, nt, gm}, {tokDelim, nt - 1, drv}, {tokHdr, nt, gp}, {tokHdr, nt - 1, drv},
 		{tokCmt, nt, gm}, {tokCmt, nt - 1, drv}, {tokMisc, nt - 1, all}, {tokGo, nt - 1, extra},
 	} {
 		words(fam.toks, fam.n, func(s string) {
